@@ -277,8 +277,12 @@ def render_v3000(mol: Mol, style: V3Style | None = None, rng: random.Random | No
             chosen = rng.sample(group, k)
             for bi, _ in chosen:
                 plain_bond_ids.remove(bi)
-            star_idx = next_free
-            next_free += rng.choice([1, 1, 5])
+            unused = [x for x in range(1, max(index_map) + 1) if x not in set(index_map) and x not in {sb[0] for sb in star_bonds}]
+            if unused and rng.random() < 0.5:
+                star_idx = rng.choice(unused)  # an index INSIDE the range used by the real atoms
+            else:
+                star_idx = next_free
+                next_free += rng.choice([1, 1, 5])
             star_bonds.append((star_idx, t, centre, [other for _, other in chosen]))
             obs.setdefault("star_endpoints", {})
             obs["star_endpoints"][str(k)] = obs["star_endpoints"].get(str(k), 0) + 1
@@ -370,7 +374,8 @@ def render_v3000(mol: Mol, style: V3Style | None = None, rng: random.Random | No
         for (star_idx, t, centre, others) in star_bonds:
             bidx += 1
             ends = [str(index_map[o]) for o in others]
-            endpts = "ENDPTS=(" + " ".join([str(len(ends))] + ends) + ")"
+            sep = " " * (rng.randint(1, style.blanks) if style.blanks > 1 else 1)
+            endpts = "ENDPTS=(" + sep.join([str(len(ends))] + ends) + ")"
             pair = [str(star_idx), str(index_map[centre])]
             if rng.random() < 0.5:
                 pair.reverse()
